@@ -1,7 +1,8 @@
-mod c13;
 mod out;
 mod proto;
+mod registry;
 mod rng;
+pub mod util;
 
 use std::path::PathBuf;
 
@@ -15,17 +16,12 @@ fn main() {
     let tier = args[3].as_str();
     let seed: u64 = args[4].parse().unwrap_or(1);
     let dir = PathBuf::from(&args[5]);
-    let mut out;
-    match prop {
-        "C13" => {
-            out = out::Out::new("add/lookup histories over the public ControlPoints API: exhaustive over a small alphabet (per kind and mixed kinds) followed by lookups at every probe, plus random long histories with fractional/negative/extreme times; non-trivial = at least 3 adds and at least 2 points stored at the end; distinct = distinct case lines");
-            c13::generate(tier, seed, &mut out);
-        }
-        _ => {
-            eprintln!("unknown property {prop}");
-            std::process::exit(2);
-        }
-    }
+    let Some(rule) = registry::rule(prop) else {
+        eprintln!("unknown property {prop}");
+        std::process::exit(2);
+    };
+    let mut out = out::Out::new(rule);
+    registry::generate(prop, tier, seed, &mut out);
     out.write(&dir).expect("write outputs");
     println!("cases={} oracle_failures={}", out.cases.len(), out.oracle.len());
 }
